@@ -4,7 +4,7 @@ CONSTANT Group <- MCGroup
 CONSTANT PureActs <- OnePure
 CONSTANT Tomos = {"qst", "povmt"}
 CONSTANT Datas = {"d1", "d2"}
-CONSTANT Modes = {"identity", "custom"}
+CONSTANT Modes = {"identity", "custom", "identity+eqonly"}
 CONSTANT AsCoded = FALSE
 CONSTANT Emit = TRUE
 VIEW View
